@@ -201,13 +201,14 @@ static void check_select(const DeviceManager* dm, int kind, const std::string& p
 
 int main(int argc, char** argv)
 {
-    int maxlen = 3; std::string out, rp; int rkind = 1;
+    int maxlen = 3; std::string out, rp; int rkind = 1; int shard = 0, nshard = 1;
     for (int i = 1; i < argc; ++i) {
         std::string a = argv[i];
         if (a == "--maxlen") maxlen = atoi(argv[++i]);
         else if (a == "--out") out = argv[++i];
         else if (a == "--replay-pattern") rp = argv[++i];
         else if (a == "--kind") rkind = atoi(argv[++i]);
+        else if (a == "--shard") sscanf(argv[++i], "%d/%d", &shard, &nshard);
         else { fprintf(stderr, "unknown arg %s\n", a.c_str()); return 2; }
     }
     auto t0 = std::chrono::steady_clock::now();
@@ -269,7 +270,8 @@ int main(int argc, char** argv)
         pats.push_back(esc);
         std::string big(255, 'a'); pats.push_back(big); pats.push_back(nm + std::string(255 - nm.size(), '\0'));
     }
-    for (int kind : { (int)DeviceKind_Camera, (int)DeviceKind_Storage }) for (auto& p : pats) check_select(&dm, kind, p);
+    for (int kind : { (int)DeviceKind_Camera, (int)DeviceKind_Storage })
+        for (size_t i = 0; i < pats.size(); ++i) if ((int)(i % (size_t)nshard) == shard) check_select(&dm, kind, pats[i]);
     try { device_manager_destroy(&dm); } catch (...) { viol("exception-escaped", "device_manager_destroy let an exception escape", "destroy"); }
     double wall = std::chrono::duration<double>(std::chrono::steady_clock::now() - t0).count();
     FILE* f = out.empty() ? stdout : fopen(out.c_str(), "w");
